@@ -161,6 +161,7 @@ func main() {
 	var stubExcept []exceptStub
 	opaque := map[string]bool{}
 	noinit := map[string]bool{}
+	pure := map[string]bool{}
 	for _, d := range defaultOpaque {
 		opaque[d] = true
 	}
@@ -187,6 +188,9 @@ func main() {
 					txt := strings.TrimSpace(strings.TrimPrefix(c.Text, "//"))
 					if strings.HasPrefix(txt, "verif:opaque ") {
 						opaque[strings.TrimSpace(strings.TrimPrefix(txt, "verif:opaque "))] = true
+					}
+					if strings.HasPrefix(txt, "verif:pure ") {
+						pure[strings.TrimSpace(strings.TrimPrefix(txt, "verif:pure "))] = true
 					}
 					if strings.HasPrefix(txt, "verif:noinit ") {
 						noinit[strings.TrimSpace(strings.TrimPrefix(txt, "verif:noinit "))] = true
@@ -348,7 +352,7 @@ func main() {
 		for k, v := range stubs[j.Harness] {
 			js[k] = v
 		}
-		eng := &sym.Engine{Prog: prog, Stubs: js, Opaque: opaque, NoInit: noinit, Embeds: embeds}
+		eng := &sym.Engine{Prog: prog, Stubs: js, Opaque: opaque, NoInit: noinit, Embeds: embeds, Pure: pure}
 		eng.Cfg = sym.Config{Workers: *workers, MaxPaths: *maxPaths, MaxDecisions: *maxDec, MaxSteps: *maxSteps,
 			MaxDepth: *maxDepth, DelayBound: *delay, Params: j.Params, Known: known, Transcript: *transcript,
 			Verbose: *verbose, TimeBudget: *timeBudget, ConcreteClock: *clockMode == "concrete"}
